@@ -207,6 +207,19 @@ theorem roundDiv_mul (x : Int) (a : Nat) (ha : 0 < a) (c : Int) : roundDiv (x * 
   simp only [h1, h2]
   rw [if_pos (by omega)]
 
+/-- the day-of-year field `day8 · 1e-8` is read as exactly `(day8 − 1e8) · 864` microseconds after 1 January, for every `day8` -/
+theorem epochMicros_grid (day8 : Nat) : epochMicros ⟨false, day8, 8⟩ = ((day8 : Int) - 100000000) * 864 := by
+  unfold epochMicros
+  simp only [Bool.false_eq_true, if_false]
+  have : ((8 : Int) ≥ 0) := by omega
+  simp only [this, if_true]
+  have t8 : (8 : Int).toNat = 8 := rfl
+  have p1 : (10 : Int) ^ 8 = 100000000 := by decide
+  have p2 : ((10 ^ 8 : Nat) : Int) = 100000000 := by decide
+  have e : (((day8 : Int) - (10 : Int) ^ (8 : Int).toNat) * 86400000000) = ((day8 : Int) - 100000000) * 864 * ((10 ^ (8 : Int).toNat : Nat) : Int) := by
+    rw [t8, p1, p2]; omega
+  rw [e, roundDiv_mul _ _ (by rw [t8]; decide)]
+
 /-- **epoch to 1e-8 day**: the day-of-year field `day8 · 1e-8` of year `y` is read as exactly `(day8 − 1e8) · 864`
 microseconds after 1 January (1e-8 day is a whole number, 864, of the microseconds `datetime` counts in), that
 instant lies in year `y`, and the writer's day-of-year computation returns `day8`. -/
@@ -361,7 +374,7 @@ theorem sum_map_length_flatten (L : List Str) : L.flatten.length = (L.map List.l
   | cons x xs ih => simp [ih]
 
 /-- what `from_orbit` hands to `cls(...)`: the bodies followed by their check digits -/
-theorem writeRec_eq (r : Rec) (h : InRange r) :
+theorem writeRec_eq (r : Rec) (h : WideRange r) :
     ∃ c1 c2, c1 < 10 ∧ c2 < 10 ∧ checksum (chunks1 r).flatten = some c1 ∧ checksum (chunks2 r).flatten = some c2 ∧
       LineOk ((chunks1 r).flatten ++ natStr c1) ∧ LineOk ((chunks2 r).flatten ++ natStr c2) ∧
       ((chunks1 r).flatten ++ natStr c1).length = 69 ∧ ((chunks2 r).flatten ++ natStr c2).length = 69 ∧
@@ -381,10 +394,12 @@ theorem writeRec_eq (r : Rec) (h : InRange r) :
   simp only [he, natStr_zero, ne_eq, not_true_eq_false, if_false, render_fmt1, render_fmt2, hk1, hk2]
 
 /-- **any orbit that can be written yields lines of exactly 69 characters with correct checksums**: for EVERY record
-inside the ranges of the format, `from_orbit` assembles two lines of 69 characters each, free of surrounding blanks,
+inside the ranges of the format — and for the three values just outside them that the rounding of an off-grid orbit
+reaches (`WideRange`: an angle printed `360.0000`, the day after the last of the year, a drag term below 1e-10) —
+`from_orbit` assembles two lines of 69 characters each, free of surrounding blanks,
 starting with `1 ` and `2 `, whose 69th character is the modulo-10 checksum of the first 68 — i.e. a text that
 `_check_validity` accepts. -/
-theorem written_lines_valid (r : Rec) (h : InRange r) :
+theorem written_lines_valid (r : Rec) (h : WideRange r) :
     ∃ l1 l2, writeRec r = .ok (if r.name.isEmpty then [l1, l2] else [r.name, l1, l2]) ∧
       l1.length = 69 ∧ l2.length = 69 ∧ LineOk l1 ∧ LineOk l2 ∧ checkValidity [l1, l2] = .ok () := by
   obtain ⟨c1, c2, _, _, _, _, ok1, ok2, len1, len2, _, _, hw⟩ := writeRec_eq r h
@@ -443,8 +458,63 @@ theorem canon_read {u : Unfl} (h : CanonUnfl u) :
   · obtain ⟨a, b⟩ := unfloat_float_id neg m5 exp h1 h2
     exact ⟨a, b h3⟩
 
+/-- a drag term below 1e-10, `±ddddd-9` with any five digits, is read as exactly `± d · 10^-14` -/
+theorem small_read (neg : Bool) (d : Nat) (hd : d < 100000) :
+    tleFloat (unfloat (.small neg d)) = .ok ⟨neg, d, 14⟩ := by
+  have hl : (natStr d).length ≤ 5 := natStr_length_le 5 d (by omega) (by omega)
+  have hZlen : (padLeft '0' 5 (natStr d)).length = 5 := padLeft_length hl
+  have hZd : ∀ c ∈ padLeft '0' 5 (natStr d), isDigit c = true := by
+    intro c hc
+    simp only [padLeft, List.mem_append, List.mem_replicate] at hc
+    rcases hc with ⟨_, rfl⟩ | hc
+    · decide
+    · exact natStr_all_digits d c hc
+  have hZne : padLeft '0' 5 (natStr d) ≠ [] := by
+    intro h; rw [h] at hZlen; simp at hZlen
+  have hZv : digitsValAux (padLeft '0' 5 (natStr d)) 0 = some d := by
+    unfold padLeft; rw [digitsValAux_zeros, digitsValAux_natStr]
+  obtain ⟨c0, t0, hZ⟩ : ∃ c0 t0, padLeft '0' 5 (natStr d) = c0 :: t0 := by
+    cases h : padLeft '0' 5 (natStr d) with
+    | nil => exact absurd h hZne
+    | cons c t => exact ⟨c, t, rfl⟩
+  have hc0 : isDigit c0 = true := hZd c0 (by rw [hZ]; simp)
+  have h9 : natStr 9 = ['9'] := by rw [natStr_lt10 (by omega)]; rfl
+  have hu : unfloat (.small neg d) = (if neg then ['-'] else []) ++ padLeft '0' 5 (natStr d) ++ ('-' :: natStr 9) := by
+    simp only [unfloat, h9]
+  have hstrip : strip (unfloat (.small neg d)) = unfloat (.small neg d) := by
+    rw [hu, h9]
+    have hlast : ((if neg then ['-'] else []) ++ padLeft '0' 5 (natStr d) ++ ['-', '9'])[((if neg then ['-'] else []) ++ padLeft '0' 5 (natStr d) ++ ['-', '9']).length - 1]? = some '9' := by
+      cases neg <;> simp [hZlen]
+    cases neg with
+    | true => exact strip_of_ends (a := '-') (by simp) hlast (by decide) (by decide)
+    | false => exact strip_of_ends (a := c0) (by simp [hZ]) hlast (isWs_of_isDigit hc0) (by decide)
+  have hscale : (if ('-' : Char) = '-' then ((padLeft '0' 5 (natStr d)).length : Int) + (9 : Nat) else ((padLeft '0' 5 (natStr d)).length : Int) - (9 : Nat)) = 14 := by
+    rw [hZlen]; simp
+  unfold tleFloat
+  rw [hstrip, hu]
+  have hdig := isDigit_not_sign hc0
+  cases neg with
+  | true =>
+    simp only [if_true, List.cons_append, List.nil_append, Bool.true_or, decide_true]
+    rw [tleFloatSigned_digits '-' '-' _ d 9 (Or.inr rfl) (Or.inr rfl) hZd hZne hZv, hscale]
+    simp
+  | false =>
+    simp only [Bool.false_eq_true, if_false, List.nil_append]
+    rw [hZ]
+    simp only [List.cons_append]
+    have hc0' : (decide (c0 = '-') || decide (c0 = '+')) = false := by simp [hdig.1, hdig.2.1]
+    simp only [hc0', Bool.false_eq_true, if_false]
+    rw [← List.cons_append, ← hZ, tleFloatSigned_digits '+' '-' _ d 9 (Or.inl rfl) (Or.inr rfl) hZd hZne hZv, hscale]
+    simp
+
+/-- every drag term the writer can print is read as the decimal it stands for -/
+theorem wide_read {u : Unfl} (h : WideUnfl u) : tleFloat (padLeft ' ' 8 (unfloat u)) = .ok (decOfUnfl u) := by
+  rcases h with h | ⟨neg, d, rfl, hd⟩
+  · exact (canon_read h).1
+  · rw [tleFloat_padLeft]; exact small_read neg d hd
+
 /-- the columns of a written first line -/
-theorem line1_slices (r : Rec) (h : InRange r) (tl : Str) :
+theorem line1_slices (r : Rec) (h : WideRange r) (tl : Str) :
     let l := (chunks1 r).flatten ++ tl
     slice l G.norad = padLeft '0' 5 (intStr r.norad) ∧
     slice l G.classification = ['U'] ∧
@@ -490,7 +560,7 @@ theorem padRight_split (a b : Str) (w : Nat) (h : a.length ≤ w) :
   congr 2
   simp; omega
 
-theorem line1_cospar_slices (r : Rec) (h : InRange r) (tl : Str) (cy : Nat) (piece : Str)
+theorem line1_cospar_slices (r : Rec) (h : WideRange r) (tl : Str) (cy : Nat) (piece : Str)
     (hc : r.cospar = fixedDigits 2 cy ++ piece) (hp : piece.length ≤ 6) :
     let l := (chunks1 r).flatten ++ tl
     slice l G.cosparYear = fixedDigits 2 cy ∧ slice l G.cosparPiece = padRight ' ' 6 piece := by
@@ -512,7 +582,7 @@ theorem line1_cospar_slices (r : Rec) (h : InRange r) (tl : Str) (cy : Nat) (pie
       (by simp [h1, fixedDigits_length]) (by simp [hp6])
 
 /-- the columns of a written second line -/
-theorem line2_slices (r : Rec) (h : InRange r) (tl : Str) :
+theorem line2_slices (r : Rec) (h : WideRange r) (tl : Str) :
     let l := (chunks2 r).flatten ++ tl
     slice l G.inc = fmtFix false 8 4 r.inc4 ∧
     slice l G.raan = fmtFix false 8 4 r.raan4 ∧
@@ -571,7 +641,7 @@ theorem pyInt_intStr_zero (w : Nat) (i : Int) (h : 0 ≤ i) : pyInt (padLeft '0'
 theorem pyInt_intStr_space (w : Nat) (i : Int) (h : 0 ≤ i) : pyInt (padLeft ' ' w (intStr i)) = .ok i := by
   rw [intStr_nonneg h, pyInt_padLeft_space]; congr 1; omega
 
-theorem parse_written (r : Rec) (h : InRange r) (c1 c2 : Nat)
+theorem parse_written (r : Rec) (h : WideRange r) (c1 c2 : Nat)
     (hv : checkValidity [(chunks1 r).flatten ++ natStr c1, (chunks2 r).flatten ++ natStr c2] = .ok ())
     (s1 : strip ((chunks1 r).flatten ++ natStr c1) = (chunks1 r).flatten ++ natStr c1)
     (s2 : strip ((chunks2 r).flatten ++ natStr c2) = (chunks2 r).flatten ++ natStr c2) :
@@ -584,8 +654,8 @@ theorem parse_written (r : Rec) (h : InRange r) (c1 c2 : Nat)
     rw [pyInt_fixedDigits 2 r.yy (by omega), Nat.mod_eq_of_lt (by have := h.yy; omega)]
   have f5 := fmtFix_read true 12 8 r.day8 (by omega)
   have f6 := ndot_read r.ndotNeg r.ndot8 h.ndot
-  have f7 := (canon_read h.ndd).1
-  have f8 := (canon_read h.bstar).1
+  have f7 := wide_read h.ndd
+  have f8 := wide_read h.bstar
   have f9 : pyInt ['0'] = .ok 0 := by rfl
   have f10 := pyInt_intStr_space 4 r.elnb h.elnb.1
   have g1 := fmtFix_read false 8 4 r.inc4 (by omega)
@@ -596,8 +666,7 @@ theorem parse_written (r : Rec) (h : InRange r) (c1 c2 : Nat)
   have g5 := fmtFix_read false 8 4 r.ma4 (by omega)
   have g6 := fmtFix_read false 11 8 r.mm8 (by omega)
   have g7 := pyInt_intStr_space 5 r.revs h.revs.1
-  have hep : epochMicros ⟨false, r.day8, 8⟩ = ((r.day8 : Int) - 100000000) * 864 :=
-    (epoch_roundtrip (fullYear r.yy) r.day8 h.day.1 h.day.2).1
+  have hep : epochMicros ⟨false, r.day8, 8⟩ = ((r.day8 : Int) - 100000000) * 864 := epochMicros_grid r.day8
   -- the international designator
   have hcos : (if (strip (padRight ' ' 8 r.cospar)).isEmpty = true then (pure none : Except Err (Option (Nat × Str)))
       else do
@@ -712,15 +781,12 @@ theorem toRec_expected (r : Rec) (h : InRange r) (l1 l2 : Str) :
     rw [natStr_fullYear_drop cy hcy, ← q2]
 
 
-/-- **any orbit that can be written parses back to the same elements** (and, read the other way, **every numeric
-field is preserved to its printed precision**): for EVERY record `r` inside the ranges of the format — five-digit
-catalogue number, empty or full designator, signed/zero drag and ṅ terms with any one-digit exponent, e in [0,1),
-angles in [0,360), n < 100, element numbers 0–9999, revolution numbers 0–99999, every day of the years 1957–2056,
-with or without name line — `Tle.from_orbit` succeeds, the `Tle` it returns shows exactly the written lines, and
-reading that `Tle` back (`orbit()` followed by the writer's numeric prelude) gives `r` again, field for field. -/
-theorem parse_write_id (r : Rec) (h : InRange r) :
+/-- writing a record the writer can print, constructing the `Tle`, reading it back: the frame shared by `parse_write_id`
+(records inside the ranges: `r' = r`) and `wide_roundtrip` of `Props/C12Float.lean` (rounding carries: `r'` = `r` normalised) -/
+theorem roundtrip_aux (r : Rec) (h : WideRange r) (r' : Rec)
+    (ht : ∀ l1 l2, toRec { expected r l1 l2 with name := r.name } = .ok r') :
     ∃ p lines, writeRec r = .ok lines ∧ fromOrbit r = .ok p ∧ parseTle lines = .ok p ∧ tleStr p = lines ∧
-      toRec p = .ok r := by
+      toRec p = .ok r' := by
   obtain ⟨c1, c2, _, _, _, _, ok1, ok2, _, _, st1, st2, hw⟩ := writeRec_eq r h
   have hv : checkValidity [(chunks1 r).flatten ++ natStr c1, (chunks2 r).flatten ++ natStr c2] = .ok () := by
     rw [valid_iff]
@@ -735,7 +801,7 @@ theorem parse_write_id (r : Rec) (h : InRange r) :
       · exact ok1
       · exact ok2
   have hp := parse_written r h c1 c2 hv st1 st2
-  have ht := toRec_expected r h ((chunks1 r).flatten ++ natStr c1) ((chunks2 r).flatten ++ natStr c2)
+  have ht := ht ((chunks1 r).flatten ++ natStr c1) ((chunks2 r).flatten ++ natStr c2)
   rcases h.name with hn | ⟨hne, hns, hn0⟩
   · -- two-line format
     have hemp : r.name.isEmpty = true := by rw [hn]; rfl
@@ -763,6 +829,18 @@ theorem parse_write_id (r : Rec) (h : InRange r) :
     · unfold fromOrbit; rw [hw]; exact hpt
     · show (if r.name.isEmpty then _ else _) = _
       rw [hemp]; rfl
+
+
+/-- **any orbit that can be written parses back to the same elements** (and, read the other way, **every numeric
+field is preserved to its printed precision**): for EVERY record `r` inside the ranges of the format — five-digit
+catalogue number, empty or full designator, signed/zero drag and ṅ terms with any one-digit exponent, e in [0,1),
+angles in [0,360), n < 100, element numbers 0–9999, revolution numbers 0–99999, every day of the years 1957–2056,
+with or without name line — `Tle.from_orbit` succeeds, the `Tle` it returns shows exactly the written lines, and
+reading that `Tle` back (`orbit()` followed by the writer's numeric prelude) gives `r` again, field for field. -/
+theorem parse_write_id (r : Rec) (h : InRange r) :
+    ∃ p lines, writeRec r = .ok lines ∧ fromOrbit r = .ok p ∧ parseTle lines = .ok p ∧ tleStr p = lines ∧
+      toRec p = .ok r :=
+  roundtrip_aux r h.wide r (toRec_expected r h)
 
 /-- **parsing a well-formed TLE and writing the resulting orbit back produces the identical lines, name line
 included**: for EVERY text the writer can produce from a record inside the ranges of the format (the canonical
